@@ -15,49 +15,54 @@ FLAG_ATTRS = {'client': 'client', 'headers_sent': 'hs', 'trailers_sent': 'ts',
 
 
 class Table:
-    """A literal {(state, input): (func, next_state)} dictionary."""
+    """A {(state, input): (func, next_state)} dictionary: a literal, or one
+    built up at module/class level (modeval evaluates the construction)."""
 
-    def __init__(self, model, dict_node, module, cls=None):
+    def __init__(self, model, name, module, cls=None, first_node=None):
+        from .modeval import ModEval, FuncRef
         self.cells = {}     # (state name, input name) -> (func name|None,
         #                      next state name, node)
-        self.node = dict_node
+        self.node = first_node
         self.duplicates = []
-        if not isinstance(dict_node, ast.Dict):
-            raise AnalysisError('transition table is not a dict literal')
-        for k, v in zip(dict_node.keys, dict_node.values):
-            try:
-                kv = model.fold(k, module, cls)
-            except NotConst:
-                raise AnalysisError('transition key not constant: %s'
-                                    % unparse(k))
+        ev = ModEval(model, module, cls)
+        try:
+            table = ev.value_of(name)
+        except NotConst:
+            raise AnalysisError('cannot evaluate the construction of %s.%s'
+                                % (cls or module, name))
+        except RecursionError:
+            raise AnalysisError('construction of %s too deep' % name)
+        if not isinstance(table, dict) or not table:
+            raise AnalysisError('%s is not a non-empty dict' % name)
+        self.state_enum = self.input_enum = None
+        for kv, v in table.items():
             if not (isinstance(kv, tuple) and len(kv) == 2 and
                     all(isinstance(x, EnumVal) for x in kv)):
-                raise AnalysisError('transition key shape: %s' % unparse(k))
-            if not (isinstance(v, ast.Tuple) and len(v.elts) == 2):
-                raise AnalysisError('transition value shape: %s'
-                                    % unparse(v))
-            fn, nxt = v.elts
-            if isinstance(fn, ast.Constant) and fn.value is None:
+                raise AnalysisError('transition key shape: %r' % (kv,))
+            if not (isinstance(v, (tuple, list)) and len(v) == 2):
+                raise AnalysisError('transition value shape: %r' % (v,))
+            fn, nv = v
+            if fn is None:
                 fname = None
-            elif isinstance(fn, ast.Attribute):
-                fname = fn.attr
-            elif isinstance(fn, ast.Name):
-                fname = fn.id
+            elif isinstance(fn, FuncRef):
+                fname = fn.name
             else:
-                raise AnalysisError('transition function: %s' % unparse(fn))
-            try:
-                nv = model.fold(nxt, module, cls)
-            except NotConst:
-                raise AnalysisError('transition target: %s' % unparse(nxt))
+                raise AnalysisError('transition function: %r' % (fn,))
+            if not isinstance(nv, EnumVal):
+                raise AnalysisError('transition target: %r' % (nv,))
             key = (kv[0].name, kv[1].name)
-            if key in self.cells:
-                self.duplicates.append(key)
-            self.cells[key] = (fname, nv.name, k)
-        self.state_enum = None
-        self.input_enum = None
-        for k in dict_node.keys[:1]:
-            kv = model.fold(k, module, cls)
-            self.state_enum, self.input_enum = kv[0].cls, kv[1].cls
+            self.cells[key] = (fname, nv.name,
+                               ev.origin.get(kv, first_node))
+            if self.state_enum is None:
+                self.state_enum, self.input_enum = kv[0].cls, kv[1].cls
+            elif (kv[0].cls, kv[1].cls) != (self.state_enum,
+                                            self.input_enum):
+                raise AnalysisError('transition key of another enum: %r'
+                                    % (kv,))
+        for kv in ev.duplicates:
+            if isinstance(kv, tuple) and len(kv) == 2 and \
+                    all(isinstance(x, EnumVal) for x in kv):
+                self.duplicates.append((kv[0].name, kv[1].name))
 
 
 class GuardedCmd:
@@ -88,14 +93,14 @@ class FSM:
         tnodes = smod.assigns.get('_transitions')
         if not tnodes:
             raise AnalysisError('stream._transitions not found')
-        self.stream = Table(m, tnodes[-1], 'stream')
+        self.stream = Table(m, '_transitions', 'stream', None, tnodes[0])
         # ---- connection table
         cm = m.cls('connection.H2ConnectionStateMachine')
         tn = cm.attrs.get('_transitions')
         if tn is None:
             raise AnalysisError('H2ConnectionStateMachine._transitions '
                                 'not found')
-        self.conn = Table(m, tn, cm.module, cm.qual)
+        self.conn = Table(m, '_transitions', cm.module, cm.qual, tn)
         self.sm_cls = m.cls('stream.H2StreamStateMachine')
         self.states = list(m.enum_members(
             m.cls('stream.StreamState').qual).keys())
@@ -118,50 +123,25 @@ class FSM:
     # ------------------------------------------------------------------
     def _stream_open(self):
         """Evaluate the module-level construction of STREAM_OPEN."""
+        from .modeval import ModEval
         m = self.m
-        smod = m.modules['stream']
         members = m.enum_members(m.cls('stream.StreamState').qual)
-        vals = None
-        for st in smod.tree.body:
-            if isinstance(st, ast.Assign) and len(st.targets) == 1:
-                t = st.targets[0]
-                if isinstance(t, ast.Name) and t.id == 'STREAM_OPEN':
-                    v = st.value
-                    if isinstance(v, ast.ListComp) and \
-                            isinstance(v.elt, ast.Constant):
-                        try:
-                            it = v.generators[0].iter
-                            n = None
-                            if isinstance(it, ast.Call) and \
-                                    isinstance(it.func, ast.Name) and \
-                                    it.func.id == 'range':
-                                n = m.fold(it.args[-1], 'stream')
-                                lo = m.fold(it.args[0], 'stream') \
-                                    if len(it.args) > 1 else 0
-                                n = n - lo
-                            vals = [v.elt.value] * n
-                        except NotConst:
-                            vals = None
-                    else:
-                        try:
-                            vals = list(m.fold(v, 'stream'))
-                        except NotConst:
-                            vals = None
-                    if vals is None:
-                        raise AnalysisError('cannot evaluate STREAM_OPEN')
-                elif isinstance(t, ast.Subscript) and \
-                        isinstance(t.value, ast.Name) and \
-                        t.value.id == 'STREAM_OPEN' and vals is not None:
-                    try:
-                        idx = m.fold(t.slice, 'stream')
-                        val = m.fold(st.value, 'stream')
-                    except NotConst:
-                        raise AnalysisError('cannot evaluate STREAM_OPEN '
-                                            'store')
-                    vals[int(idx)] = val
-        if vals is None:
-            raise AnalysisError('STREAM_OPEN not found')
+        try:
+            vals = ModEval(m, 'stream').value_of('STREAM_OPEN')
+        except NotConst:
+            raise AnalysisError('cannot evaluate STREAM_OPEN')
         out = {}
+        if isinstance(vals, dict):
+            for name, v in members.items():
+                k = [x for x in vals if isinstance(x, EnumVal) and
+                     x.name == name]
+                if not k:
+                    raise AnalysisError('STREAM_OPEN does not cover %s'
+                                        % name)
+                out[name] = bool(vals[k[0]])
+            return out
+        if not isinstance(vals, (list, tuple)):
+            raise AnalysisError('STREAM_OPEN is neither list nor dict')
         for name, v in members.items():
             if v is None or int(v) >= len(vals):
                 raise AnalysisError('STREAM_OPEN does not cover %s' % name)
